@@ -54,6 +54,9 @@ func TestC17(t *testing.T) {
 		for _, p := range []string{"xsurveyor", "xpub", "xbus", "xstar", "surveyor", "pub", "bus", "star"} {
 			cases = append(cases, mon.CaseSpec{Name: "rawfan/" + p, Spec: spec{Kind: "rawfan", Pat: p, N: r.Pick(1500, 4000)}})
 		}
+		for _, tr := range []string{"inproc", "tcp", "ipc"} {
+			cases = append(cases, mon.CaseSpec{Name: "ownbody/" + tr, Spec: spec{Kind: "ownbody", Tran: tr}})
+		}
 		cases = append(cases, mon.CaseSpec{Name: "reqretain", Spec: spec{Kind: "reqretain", N: 3 + rnd.Intn(3)}})
 		cases = append(cases, mon.CaseSpec{Name: "newmsg", Spec: spec{Kind: "newmsg"}})
 	}
@@ -75,6 +78,8 @@ func TestC17(t *testing.T) {
 			runOutcome(c, sp)
 		case "rawfan":
 			runRawFan(c, sp)
+		case "ownbody":
+			runOwnBody(c, sp)
 		case "reqretain":
 			runReqRetain(c, sp)
 		case "newmsg":
